@@ -394,6 +394,12 @@ package analysis
 //@ pred accuOK(E enumsMap, U unionsMap) bool = (forall N *types.Named :: has(E, N) ==> E[N] != nil && E[N].name == N && allocated(E[N]) && ghost("iotaChecked", E[N]) == 1) && (forall N *types.Named :: has(U, N) ==> is(N, *types.Named) && allocated(U[N]) && len(U[N]) > 0) && (forall N *types.Named, k int :: has(U, N) && 0 <= k && k < len(U[N]) ==> U[N][k] != nil && isMember(U[N][k], N)) && (forall N *types.Named, k1, k2 int :: has(U, N) && 0 <= k1 && k1 < k2 && k2 < len(U[N]) ==> U[N][k1].Obj().Name() < U[N][k2].Obj().Name())
 
 // which imports are walked: a function of the package path and the selector (nothing is written)
+// The unbounded statement about the walk, without a reachability relation: the ghost set `walked` (one bit per
+// package, set when the closure returns for it) is CLOSED under the imports the selector does not ignore, and the
+// enums and unions of every walked package are recorded. With the root walked, every package reachable from the root through
+// non-ignored imports is in that set (reachability is the least such set): all their enums are recorded.
+//@ pred walkedOK(sel PkgSelector, E enumsMap, U unionsMap) bool = (forall q *packages.Package, k string :: ghost("walked", q) == 1 && has(q.Imports, k) && !sel.Ignore(q.Imports[k]) ==> ghost("walked", q.Imports[k]) == 1) && (forall q *packages.Package, i int, N *types.Named :: ghost("walked", q) == 1 && 0 <= i && i < len(q.Types.Scope().Names()) && enumConst(q, q.Types.Scope().Names()[i], N) ==> has(E, N)) && (forall q *packages.Package, c *types.Named, i, j int :: ghost("walked", q) == 1 && 0 <= i && i < nameCount(q.Types.Scope()) && namedTypeAt(q, nameAt(q.Types.Scope(), i), c) && isItf(c) && 0 <= j && j < nameCount(q.Types.Scope()) && (exists m *types.Named :: namedTypeAt(q, nameAt(q.Types.Scope(), j), m) && isMember(m, c)) ==> has(U, c))
+
 //@ func NewPkgSelector
 //@   props C10 C11
 //@   pure
@@ -412,8 +418,12 @@ package analysis
 //@   props C10 C11
 //@   requires pkgsOK(p) && !isnil(outEnums) && !isnil(outUnions) && ref(outEnums) != ref(outUnions)
 //@   requires accuOK(outEnums, outUnions)
-//@   modifies keys(outEnums), keys(outUnions)
+//@   requires walkedOK(selector, outEnums, outUnions)
+//@   modifies keys(outEnums), keys(outUnions), G$walked
+//@   ghostset walked p
 //@   ensures accuOK(outEnums, outUnions)
+//@   ensures walkedOK(selector, outEnums, outUnions) && ghost("walked", p) == 1
+//@   ensures forall q *packages.Package :: old(ghost("walked", q)) == 1 ==> ghost("walked", q) == 1
 //@   -- nothing is ever removed ...
 //@   ensures forall N *types.Named :: old(has(outEnums, N)) ==> has(outEnums, N)
 //@   ensures forall N *types.Named :: old(has(outUnions, N)) ==> has(outUnions, N)
@@ -428,17 +438,22 @@ package analysis
 //@   loop fetchPkgEnums(p).1 coll pe
 //@   loop fetchPkgEnums(p).1 invariant forall N *types.Named :: has(pe, N) == before(has(pe, N)) && pe[N] == before(pe[N])
 //@   loop fetchPkgEnums(p).1 invariant accuOK(outEnums, outUnions)
+//@   loop fetchPkgEnums(p).1 invariant walkedOK(selector, outEnums, outUnions)
 //@   loop fetchPkgEnums(p).1 invariant forall N *types.Named :: old(has(outEnums, N)) || doneE[N] ==> has(outEnums, N)
 //@   loop fetchPkgEnums(p).1 invariant forall N *types.Named :: old(has(outUnions, N)) ==> has(outUnions, N)
 //@   loop fetchPkgUnions(p).1 visited doneU
 //@   loop fetchPkgUnions(p).1 coll pu
 //@   loop fetchPkgUnions(p).1 invariant forall N *types.Named :: has(pu, N) == before(has(pu, N)) && pu[N] == before(pu[N])
 //@   loop fetchPkgUnions(p).1 invariant accuOK(outEnums, outUnions)
+//@   loop fetchPkgUnions(p).1 invariant walkedOK(selector, outEnums, outUnions)
 //@   loop fetchPkgUnions(p).1 invariant forall N *types.Named :: old(has(outUnions, N)) || doneU[N] ==> has(outUnions, N)
 //@   loop fetchPkgUnions(p).1 invariant forall N *types.Named :: before(has(outEnums, N)) ==> has(outEnums, N)
 //@   loop fetchPkgUnions(p).1 invariant forall i int, N *types.Named :: 0 <= i && i < len(p.Types.Scope().Names()) && enumConst(p, p.Types.Scope().Names()[i], N) ==> has(outEnums, N)
 //@   loop p.Imports.1 visited doneI
 //@   loop p.Imports.1 invariant accuOK(outEnums, outUnions)
+//@   loop p.Imports.1 invariant walkedOK(selector, outEnums, outUnions)
+//@   loop p.Imports.1 invariant forall k string :: doneI[k] && !selector.Ignore(p.Imports[k]) ==> ghost("walked", p.Imports[k]) == 1
+//@   loop p.Imports.1 invariant forall q *packages.Package :: before(ghost("walked", q)) == 1 ==> ghost("walked", q) == 1
 //@   loop p.Imports.1 invariant forall k string, i int, N *types.Named :: doneI[k] && !selector.Ignore(p.Imports[k]) && 0 <= i && i < len(p.Imports[k].Types.Scope().Names()) && enumConst(p.Imports[k], p.Imports[k].Types.Scope().Names()[i], N) ==> has(outEnums, N)
 //@   loop p.Imports.1 invariant forall k string, c *types.Named, i, j int :: doneI[k] && !selector.Ignore(p.Imports[k]) && 0 <= i && i < nameCount(p.Imports[k].Types.Scope()) && namedTypeAt(p.Imports[k], nameAt(p.Imports[k].Types.Scope(), i), c) && isItf(c) && 0 <= j && j < nameCount(p.Imports[k].Types.Scope()) && (exists m *types.Named :: namedTypeAt(p.Imports[k], nameAt(p.Imports[k].Types.Scope(), j), m) && isMember(m, c)) ==> has(outUnions, c)
 //@   loop p.Imports.1 invariant forall i int, N *types.Named :: 0 <= i && i < len(p.Types.Scope().Names()) && enumConst(p, p.Types.Scope().Names()[i], N) ==> has(outEnums, N)
@@ -451,6 +466,10 @@ package analysis
 //@ func fetchEnumsAndUnions
 //@   props C10 C11
 //@   requires pkgsOK(pa)
+//@   requires forall q *packages.Package :: ghost("walked", q) != 1
+//@   modifies G$walked
+//@   -- the unbounded statement: the root is walked, the walked set is closed under non-ignored imports, the enums of every walked package are recorded
+//@   ensures ghost("walked", pa) == 1 && walkedOK(selector, result1, result2)
 //@   -- every recorded enum is a real node named after its type that setIsIota has classified (its contract says what the flag means)
 //@   ensures forall N *types.Named :: has(result1, N) ==> result1[N] != nil && result1[N].name == N && ghost("iotaChecked", result1[N]) == 1
 //@   -- every recorded union keeps a non-empty list of implementers, strictly increasing by name (each once)
@@ -468,7 +487,8 @@ package analysis
 //@   props C11 C12
 //@   requires an != nil
 //@   requires pkgsOK(pa)
-//@   modifies an.Types, F$github.com.benoitkugler.gomacro.analysis.Struct.Implements, G$implementsSet
+//@   requires forall q *packages.Package :: ghost("walked", q) != 1
+//@   modifies an.Types, F$github.com.benoitkugler.gomacro.analysis.Struct.Implements, G$implementsSet, G$walked
 //@   ensures tableOK(an)
 //@   ensures forall t types.Type :: has(an.Types, t) && is(an.Types[t], *Struct) ==> ghost("implementsSet", an.Types[t]) == 1
 //@   loop an.Source.1 invariant tableOK(an) && ctxOK(ctx)
@@ -502,7 +522,8 @@ package analysis
 //@ func NewAnalysisFromTypes
 //@   props C12
 //@   requires pkgsOK(pkg)
-//@   modifies F$github.com.benoitkugler.gomacro.analysis.Struct.Implements, G$implementsSet
+//@   requires forall q *packages.Package :: ghost("walked", q) != 1
+//@   modifies F$github.com.benoitkugler.gomacro.analysis.Struct.Implements, G$implementsSet, G$walked
 //@   ensures result != nil && result.Source == source && result.Pkg == pkg && tableOK(result)
 
 // the source declarations are reported in source order
@@ -510,7 +531,8 @@ package analysis
 //@   props C12
 //@   requires pkg != nil && pkg.Types != nil && pkg.Fset != nil
 //@   requires pkgsOK(pkg)
-//@   modifies F$github.com.benoitkugler.gomacro.analysis.Struct.Implements, G$implementsSet
+//@   requires forall q *packages.Package :: ghost("walked", q) != 1
+//@   modifies F$github.com.benoitkugler.gomacro.analysis.Struct.Implements, G$implementsSet, G$walked
 //@   ensures result != nil
 //@   ensures forall i, j int :: 0 <= i && i < j && j < len(result.Source) && is(result.Source[i], *types.Named) && is(result.Source[j], *types.Named) ==> as(result.Source[i], *types.Named).Obj().Pos() <= as(result.Source[j], *types.Named).Obj().Pos()
 //@   -- every reported declaration is a type name of the package scope declared in that file, and all of them are reported
